@@ -284,7 +284,8 @@ def units(ctx, rng, idx):
         ctx.info["bitwise_rhs_twins"] = ctx.info.get("bitwise_rhs_twins", 0) + 1
     else:
         for i in range(model.neq):
-            ctx.close("units:rhs-tol", np.max(np.abs(r1[i] - r2[i])) * dxmin / fs[i], 1e-8 if reg else 1e-11, "units/rhs-not-rescaled/%s/%s" % (tag, bkey),
+            # arbitrary (non power-of-two) length factors round every face position anew: the width of a thin cell changes by ulp(x)/dx_min
+            ctx.close("units:rhs-tol", np.max(np.abs(r1[i] - r2[i])) * dxmin / fs[i], (1e-8 if reg else 1e-11) + 16 * np.finfo(float).eps * float(np.max(np.abs(mesh.xf))) / dxmin, "units/rhs-not-rescaled/%s/%s" % (tag, bkey),
                       {"eq": i, "scales": [a, b, l]}, cls="units:tolerance")
     try:
         S1 = gen.integ(iname)(mesh, disc)
@@ -314,6 +315,7 @@ def units(ctx, rng, idx):
     else:
         cls = "units:implicit" if implicit else "units:tolerance"
         tol = itol if implicit else (1e-7 if reg else 1e-10)
+        tol = tol + 16 * np.finfo(float).eps * float(np.max(np.abs(mesh.xf))) / dxmin * nstep      # re-rounded face positions (thin cells), see above
         _judge_twin(ctx, cls + ":time", abs(e1.time - t2) / (abs(e1.time) + 1e-300), tol, "units/solve-time-not-rescaled", {"t": e1.time, "t twin / scale": t2}, cls, _amp)
         for i in range(model.neq):
             sc = max(np.max(np.abs(f.data[i])), np.max(np.abs(e1.data[i]))) + 1e-300
